@@ -25,7 +25,7 @@ REQUIRED_BUCKETS = ['import:plain', 'import:as', 'import:from', 'import:from-as'
                     'spelling:two-for-one-object', 'order:class-then-method', 'order:method-then-class', 'order:method-via-other-spelling-than-class',
                     'ref:created-before-method-configured', 'ref:scoped', 'include:own-imports', 'include:colliding-bound-name', 'error:name-from-includer', 'error:name-from-includee',
                     'error:attribute', 'error:gin-reserved', 'error:late-enabling', 'error:aliased-enabling', 'error:unknown-feature', 'roundtrip:same-process',
-                    'roundtrip:fresh-process', 'equally-named-modules']
+                    'roundtrip:fresh-process', 'equally-named-modules', 'cross-parse:second-parse', 'cross-parse:include', 'cross-parse:includer']
 ORACLE_COUNTERS = ['oracle_evals', 'deliveries_compared', 'roundtrips']
 _S = {}
 
@@ -83,6 +83,11 @@ def spellings(obj, imports):
 
 def iter_cases(ctx, rng, n):
   for i in range(n):
+    if i % 7 == 3:
+      yield {'kind': 'cross-parse', 'how': rng.choice(['second-parse', 'include', 'includer']), 'ref_import': rng.choice(['import PK.alpha as M1', 'from PK import alpha as M1', 'import PK.alpha']),
+             'meth_import': rng.choice(['from PK import alpha', 'import PK.alpha as Z9', 'import PK.alpha']), 'scoped': rng.random() < 0.5,
+             'second_method': rng.random() < 0.5}
+      continue
     if i % 5 == 4:
       yield {'kind': 'errors', 'which': rng.choice(['name-from-includer', 'name-from-includee', 'attribute', 'gin-reserved', 'late-enabling', 'aliased-enabling',
                                                       'unknown-feature']), 'seed': rng.randrange(1 << 30)}
@@ -378,7 +383,52 @@ def run_errors(ctx, case):
   gin.clear_config()
 
 
+def run_cross_parse(ctx, case):
+  """A class is referenced in one file; a method of it is configured later in another file / parse call with other imports."""
+  import gin
+  gin.clear_config()
+  pk = _S['tree'].new_package('c19x')
+  dyn = 'from __gin__ import dynamic_registration\n'
+  def spell(imp):
+    return {'import PK.alpha as M1': 'M1', 'from PK import alpha as M1': 'M1', 'import PK.alpha': pk + '.alpha', 'from PK import alpha': 'alpha',
+            'import PK.alpha as Z9': 'Z9'}[imp]
+  rs, ms = spell(case['ref_import']), spell(case['meth_import'])
+  sc = 'rsc/' if case['scoped'] else ''
+  ref_text = dyn + case['ref_import'].replace('PK', pk) + '\nfrom %s.sub import gamma\ngamma.fg.ref = @%s%s.K()\n%s.K.a = 5\n' % (pk, sc, rs, rs)
+  meth_text = dyn + case['meth_import'].replace('PK', pk) + '\n%s.K.meth.m = 7\n' % ms
+  if case['second_method']:
+    meth_text += '%s.K.other.o = 8\n' % ms
+  ctx.bucket('cross-parse:' + case['how'])
+  ctx.fp('cross-parse', case['how'], case['ref_import'], case['meth_import'], case['scoped'], case['second_method'])
+  try:
+    if case['how'] == 'second-parse':
+      gin.parse_config(ref_text)
+      gin.parse_config(meth_text)
+    elif case['how'] == 'include':
+      path = os.path.join(_S['tree'].root, pk + '_m.gin')
+      open(path, 'w').write(meth_text)
+      gin.parse_config(ref_text + "include '%s'\n" % path)
+    else:
+      path = os.path.join(_S['tree'].root, pk + '_r.gin')
+      open(path, 'w').write(ref_text)
+      gin.parse_config("include '%s'\n" % path + meth_text)
+  except Exception as e:  # pylint: disable=broad-except
+    ctx.check(False, 'method-configured-in-other-file-rejected', 'configuring a method of a class referenced from another file raised %s: %s\n%s\n---\n%s' %
+              (type(e).__name__, str(e)[:300], ref_text.replace(pk, 'PK'), meth_text.replace(pk, 'PK')))
+    return
+  inst = gin.get_configurable(resolve_obj(pk, 'sub.gamma.fg'))()[2]
+  got = (inst.a, inst.meth()[1], inst.other()[1])
+  want = (5, 7, 8 if case['second_method'] else 0)
+  ctx.count('deliveries_compared')
+  ctx.check(got == want, 'reference-from-other-file-stale-after-method-registration',
+            'instance built through a reference written in another file: (a, meth m, other o) = %r, expected %r\n%s\n---\n%s' %
+            (got, want, ref_text.replace(pk, 'PK'), meth_text.replace(pk, 'PK')))
+  gin.clear_config()
+
+
 def run_case(ctx, case):
+  if case['kind'] == 'cross-parse':
+    return run_cross_parse(ctx, case)
   if case['kind'] == 'bindings':
     run_bindings(ctx, case)
   else:
